@@ -20,6 +20,9 @@ from c18_common import pick
 
 ID = 'C19'
 GEN = ['kernels', 'solve']
+# the scalar kernels of functions.py this property's statement depends on (a change confined to the others is not this property's business;
+# what its own correspondence compares still is)
+KERNELS_USED = []
 PROPS = 'Props/C19.v'
 MODEL_VO = ['Model/Solve.v']
 CASE_TYPE = 'kase'
